@@ -38,9 +38,10 @@ var pureGetters = map[string]bool{
 }
 
 type canon struct {
-	p    *Prog
-	fn   *Func
-	info *types.Info
+	p      *Prog
+	fn     *Func
+	info   *types.Info
+	tables map[*types.Var]*ast.CompositeLit // locals defined once from an array/slice literal and never written
 }
 
 func (p *Prog) canonicaliseAll() {
@@ -62,6 +63,7 @@ func (c *canon) run() {
 	// 1. private copy
 	cl := &cloner{info: c.info}
 	body := cl.Block(orig.Body)
+	c.findTables(body)
 	// 2. structural rewrites, in place on the copy
 	body.List = c.stmts(body.List)
 	// 3. alias substitution (second copy)
@@ -72,6 +74,63 @@ func (c *canon) run() {
 	nd := *orig
 	nd.Body = body
 	fn.Decl = &nd
+}
+
+// findTables: locals defined exactly once from an array/slice composite literal, never assigned, indexed-assigned or address-taken.
+func (c *canon) findTables(body *ast.BlockStmt) {
+	c.tables = map[*types.Var]*ast.CompositeLit{}
+	defs := map[*types.Var]int{}
+	disq := map[types.Object]bool{}
+	root := func(e ast.Expr) types.Object {
+		e = ast.Unparen(e)
+		for {
+			switch x := e.(type) {
+			case *ast.IndexExpr:
+				e = ast.Unparen(x.X)
+				continue
+			case *ast.SelectorExpr:
+				e = ast.Unparen(x.X)
+				continue
+			}
+			break
+		}
+		return ObjOf(c.info, e)
+	}
+	ast.Inspect(body, func(n ast.Node) bool {
+		switch x := n.(type) {
+		case *ast.AssignStmt:
+			for i, l := range x.Lhs {
+				if id, ok := l.(*ast.Ident); ok && x.Tok == token.DEFINE && len(x.Rhs) == len(x.Lhs) {
+					if v, ok := c.info.Defs[id].(*types.Var); ok {
+						defs[v]++
+						if cl, ok := ast.Unparen(x.Rhs[i]).(*ast.CompositeLit); ok {
+							c.tables[v] = cl
+						}
+						continue
+					}
+				}
+				if o := root(l); o != nil {
+					disq[o] = true
+				}
+			}
+		case *ast.UnaryExpr:
+			if x.Op == token.AND {
+				if o := root(x.X); o != nil {
+					disq[o] = true
+				}
+			}
+		case *ast.SliceExpr:
+			if o := root(x.X); o != nil {
+				disq[o] = true // a slice of the array aliases it
+			}
+		}
+		return true
+	})
+	for v := range c.tables {
+		if defs[v] != 1 || disq[v] {
+			delete(c.tables, v)
+		}
+	}
 }
 
 // ---------------------------------------------------------------------------------------------
@@ -92,6 +151,140 @@ func (c *canon) stmts(list []ast.Stmt) []ast.Stmt {
 		}
 	}
 	return list
+}
+
+// unrollLiteralRange: a loop over a short table written as a literal is the sequence of its iterations:
+//
+//	for _, c := range [N]T{{a1, b1}, …} { …c.f… }   →   { …a1… } { …a2… } …
+//
+// (the table may be a local defined once from such a literal). Only when the body neither breaks nor
+// continues the loop and does not write the loop variables.
+func (c *canon) unrollLiteralRange(rs *ast.RangeStmt) ast.Stmt {
+	if rs.Tok != token.DEFINE && rs.Key != nil {
+		return nil
+	}
+	var lit *ast.CompositeLit
+	switch x := ast.Unparen(rs.X).(type) {
+	case *ast.CompositeLit:
+		lit = x
+	case *ast.Ident:
+		if v, ok := c.info.Uses[x].(*types.Var); ok && c.tables != nil {
+			lit = c.tables[v]
+		}
+	}
+	if lit == nil || len(lit.Elts) == 0 || len(lit.Elts) > 8 {
+		return nil
+	}
+	if tv, ok := c.info.Types[lit]; !ok {
+		return nil
+	} else {
+		switch tv.Type.Underlying().(type) {
+		case *types.Array, *types.Slice:
+		default:
+			return nil
+		}
+	}
+	for _, el := range lit.Elts {
+		if _, keyed := el.(*ast.KeyValueExpr); keyed {
+			return nil
+		}
+	}
+	// no break/continue of this loop, no goto/labels, loop variables not written
+	var keyObj, valObj types.Object
+	if id, ok := rs.Key.(*ast.Ident); ok && id.Name != "_" {
+		keyObj = c.info.Defs[id]
+	}
+	if id, ok := rs.Value.(*ast.Ident); ok && id.Name != "_" {
+		valObj = c.info.Defs[id]
+	}
+	bad := false
+	var walk func(n ast.Node, inner bool)
+	walk = func(n ast.Node, inner bool) {
+		ast.Inspect(n, func(m ast.Node) bool {
+			if bad || m == nil {
+				return false
+			}
+			switch x := m.(type) {
+			case *ast.FuncLit:
+				return false
+			case *ast.ForStmt, *ast.RangeStmt, *ast.SwitchStmt, *ast.TypeSwitchStmt, *ast.SelectStmt:
+				if m != n {
+					walk(m, true)
+					return false
+				}
+			case *ast.BranchStmt:
+				if x.Label != nil || x.Tok == token.GOTO || x.Tok == token.CONTINUE && !innerLoop(n, inner) || (x.Tok == token.BREAK && !inner) {
+					bad = true
+				}
+			case *ast.LabeledStmt:
+				bad = true
+			case *ast.AssignStmt:
+				for _, l := range x.Lhs {
+					if o := ObjOf(c.info, l); o != nil && (o == keyObj || o == valObj) {
+						bad = true
+					}
+				}
+			case *ast.UnaryExpr:
+				if x.Op == token.AND {
+					if o := ObjOf(c.info, x.X); o != nil && (o == keyObj || o == valObj) {
+						bad = true
+					}
+				}
+			}
+			return true
+		})
+	}
+	walk(rs.Body, false)
+	if bad {
+		return nil
+	}
+	out := &ast.BlockStmt{Lbrace: rs.For, Rbrace: rs.End()}
+	for k, el := range lit.Elts {
+		el := el
+		cl := &cloner{info: c.info, subst: map[types.Object]ast.Expr{}}
+		if valObj != nil {
+			cl.subst[valObj] = el
+			if ecl, ok := ast.Unparen(el).(*ast.CompositeLit); ok {
+				if tv, ok := c.info.Types[ecl]; ok {
+					if st, ok := tv.Type.Underlying().(*types.Struct); ok {
+						cl.fieldSubst = map[types.Object]func(string) ast.Expr{valObj: func(field string) ast.Expr {
+							for i, f := range ecl.Elts {
+								if kv, ok := f.(*ast.KeyValueExpr); ok {
+									if id, ok := kv.Key.(*ast.Ident); ok && id.Name == field {
+										return kv.Value
+									}
+									continue
+								}
+								if i < st.NumFields() && st.Field(i).Name() == field {
+									return f
+								}
+							}
+							return nil
+						}}
+					}
+				}
+			}
+		}
+		if keyObj != nil {
+			idx := &ast.BasicLit{ValuePos: rs.For, Kind: token.INT, Value: itoa(k)}
+			c.info.Types[idx] = types.TypeAndValue{Type: types.Typ[types.Int], Value: constant.MakeInt64(int64(k))}
+			cl.subst[keyObj] = idx
+		}
+		out.List = append(out.List, cl.Block(rs.Body))
+	}
+	return out
+}
+
+// innerLoop: a continue inside a nested construct binds to a nested loop only if that construct is a loop.
+func innerLoop(n ast.Node, inner bool) bool {
+	if !inner {
+		return false
+	}
+	switch n.(type) {
+	case *ast.ForStmt, *ast.RangeStmt:
+		return true
+	}
+	return false
 }
 
 // splitBoolReturns: `return <comparison or &&/||/! expression>` (one bool result) becomes
@@ -303,6 +496,9 @@ func (c *canon) stmt(s ast.Stmt) ast.Stmt {
 		}
 	case *ast.RangeStmt:
 		c.block(x.Body)
+		if u := c.unrollLiteralRange(x); u != nil {
+			return u
+		}
 	case *ast.SwitchStmt:
 		c.block(x.Body)
 		c.taglessToTagSwitch(x)
